@@ -203,7 +203,11 @@ def cases(draw, qmax=30, qset=None):
                 over = draw(st.sampled_from([0, 0, 0, -1, 1, 2, 3]))
                 deg = max(0, min(q + over, 34)) if scheme != "vertex" else draw(st.integers(0, 3))
                 alpha = draw(exponents(tdim, deg))
-                terms.append({"alpha": alpha, "q": q, "scheme": scheme})
+                if kind == "multi" and draw(st.integers(0, 3)) == 0:
+                    # no metadata at all: the rule comes from the estimated degree and must integrate the monomial exactly
+                    terms.append({"alpha": draw(exponents(tdim, draw(st.integers(1, 8)))), "q": None, "scheme": "default"})
+                else:
+                    terms.append({"alpha": alpha, "q": q, "scheme": scheme})
             forms.append({"kind": kind, "terms": terms})
         elif kind == "qelement":
             forms.append({"kind": kind, "qe": draw(st.integers(0, 6)), "alpha": draw(exponents(tdim, draw(st.integers(0, 4)))),
@@ -237,7 +241,7 @@ def form_spec(cell, f):
     base = {"kind": "form", "cell": cell, "gdim": TDIM[cell], "cdeg": 1, "elements": [], "args": [], "coefs": [], "consts": [], "integrals": []}
     if f["kind"] in ("single", "multi"):
         for t in f["terms"]:
-            md = {"quadrature_degree": int(t["q"])}
+            md = {} if t["q"] is None else {"quadrature_degree": int(t["q"])}
             if t["scheme"] != "default":
                 md["quadrature_rule"] = t["scheme"]
             base["integrals"].append({"m": "dx", "id": None, "md": md, "e": mono_tree(t["alpha"])})
@@ -298,14 +302,24 @@ def evaluate_case(case, wd):
             all_exact = True
             rules = set()
             for t in f["terms"]:
+                deg = sum(t["alpha"])
+                ex = exact_integral(cell, Am, bv, t["alpha"])
+                if t["q"] is None:
+                    # estimated degree: any rule that is exact for the monomial gives the exact value
+                    Xq, wq = own_rule(cell, min(2 * deg + 2, 30), "default")
+                    vals = mono_values(Xq, Am, bv, t["alpha"])
+                    expected += float(ex)
+                    scale += float(np.sum(np.abs(wq * vals)) * detA)
+                    exact_tot += ex
+                    rules.add(("estimated", deg))
+                    nontrivial = True
+                    continue
                 Xq, wq = own_rule(cell, t["q"], t["scheme"])
                 rules.add((len(wq), round(float(Xq.sum()), 9)))
                 vals = mono_values(Xq, Am, bv, t["alpha"])
                 s = float(np.sum(wq * vals) * detA)
                 expected += s
                 scale += float(np.sum(np.abs(wq * vals)) * detA)
-                deg = sum(t["alpha"])
-                ex = exact_integral(cell, Am, bv, t["alpha"])
                 exact_tot += ex
                 if t["scheme"] == "vertex":
                     all_exact = all_exact and deg <= 1
